@@ -24,7 +24,7 @@ UN = ['u-', 'u+', '%']
 OPCLASS = {'+': 'arith', '-': 'arith', '*': 'arith', '/': 'arith', '^': 'pow', '&': 'concat',
            '=': 'cmp', '<>': 'cmp', '<': 'cmp', '>': 'cmp', '<=': 'cmp', '>=': 'cmp'}
 
-NUMS = [0.0, 1.0, -1.0, 2.0, 3.0, 0.5, -2.5, 1.15, 2.675, 1e200, -1e200, 1e-200, 1234567.0, 0.00001]
+NUMS = [0.0, -0.0, 1.0, -1.0, 2.0, 3.0, 0.5, -2.5, 1.15, 2.675, 1e200, -1e200, 1e-200, 1234567.0, 0.00001]
 NUMTEXT = ['3', ' 3 ', '-1.5', '1e3', '0']
 TEXT = ['abc', 'a', 'A', 'B', 'b', '', ' ']
 TRAPS = ['inf', 'nan', '1_0', '３', 'Infinity', '0x10', '1,5']
